@@ -863,8 +863,18 @@ TRUSTED = [
     "the generator of derivations, the comparison",
     "the selector generator of harness/props/c16.py (imported) and the selector AST/renderer of coq/theories/Selector.v (C16)",
     "Section hypotheses of coq/props/C02.v validated by this run on every case: tokenize_render (shared tokenizer model "
-    "re-tokenizes the rendering), selector_accepts (C16 machine builds the specified components), value_grammar_faithful "
-    "and media_grammar_faithful (ProdParser grammars: unmodelled, validated end to end against expected_model)",
+    "re-tokenizes the rendering), selector_accepts (C16 machine builds the specified components), value_grammar_faithful, "
+    "media_grammar_faithful, simple_rules_faithful (validated end to end against expected_model)",
+    "hypothesis-free since GrammarPP.v (theorems value_grammar_faithful_pp, media_grammar_faithful_pp, parse_faithful_pp): "
+    "declarations whose terms are single tokens (identifier / colour keyword, number, dimension, percentage, string, url, hex "
+    "colour, unicode-range) or rgb(), and @media heads whose queries the PP engine model accepts (known media type, or unknown "
+    "without only/not; feature values single number / dimension / percentage / non-colour identifier), in sheets of rule sets, "
+    "comments and nested @media: build_value / build_media are the PP engine (coq/theories/ProdParser*.v, production trees "
+    "regenerated from value.py / medialist.py / mediaquery.py by translate/prodtrees.py) plus Gallina readers; trusted there: "
+    "PP's engine model and its own correspondence check (./check PP)",
+    "STILL under the named hypotheses: declarations with generic functions or calc() (value_grammar_faithful), @media heads "
+    "outside okm_pp and every @import media list (media_grammar_faithful / simple_rules_faithful), the heads of @charset, "
+    "@import, @namespace, @page, @font-face and unknown at-rules (simple_rules_faithful), tokenize_render",
     "Python repr() of int/float as the canonical number spelling (lexemes of G have <= 6 integer and <= 4 fraction digits)",
 ]
 ASSUME = [
